@@ -895,8 +895,6 @@ func (e *env) runSnap(s *script) error {
 
 // ---------------------------------------------------------------- (c) rot
 
-const maxIdx = 4
-
 func (e *env) markerState(n *names, marker string) (state.State, error) {
 	p := api.PinCid(n.cid(marker))
 	p.Name = marker
@@ -930,7 +928,7 @@ func content(n *names, folder string) (string, error) {
 	return n.cidName(pins[0].Cid), nil
 }
 
-func listDirs(n *names, base string) (*dirState, []string, error) {
+func listDirs(n *names, base string, maxIdx int) (*dirState, []string, error) {
 	d := &dirState{Old: make([]string, maxIdx+1)}
 	var err error
 	if d.Data, err = content(n, filepath.Join(base, "raft")); err != nil {
@@ -965,10 +963,11 @@ func (e *env) runRot(s *script) error {
 	}
 	defer os.RemoveAll(base)
 	_, id := keyFor("rot", e.seed, s.ID)
+	maxIdx := len(s.Old) - 1 // data.old.0 .. data.old.maxIdx are watched (two-digit in the wide scripts)
 	for i := 0; i <= maxIdx; i++ {
 		n.cid(fmt.Sprintf("b%d", i))
 	}
-	for i := 1; i <= 16; i++ {
+	for i := 1; i <= 40; i++ {
 		n.cid(fmt.Sprintf("s%d", i))
 	}
 	// pre-existing backups: genuine Raft data folders, each holding a snapshot with its marker
@@ -985,7 +984,7 @@ func (e *env) runRot(s *script) error {
 		}
 	}
 	cfg := raftCfg(filepath.Join(base, "raft"), s.Keep)
-	pre, extra, err := listDirs(n, base)
+	pre, extra, err := listDirs(n, base, maxIdx)
 	if err != nil {
 		return err
 	}
@@ -1019,7 +1018,7 @@ func (e *env) runRot(s *script) error {
 		default:
 			return fmt.Errorf("rot: unknown action %q", st.Act)
 		}
-		post, extra, err := listDirs(n, base)
+		post, extra, err := listDirs(n, base, maxIdx)
 		if err != nil {
 			return err
 		}
